@@ -40,6 +40,16 @@ fn parse_i64(b: &[u8]) -> Result<i64, DecodeErr> {
         .ok_or_else(|| DecodeErr::Malformed(format!("bad integer {:?}", String::from_utf8_lossy(b))))
 }
 
+/// a declared length is 0, a positive decimal without sign or leading zero, or -1
+fn canonical_len(line: &[u8]) -> Result<(), DecodeErr> {
+    let ok = line == b"-1" || line == b"0" || (!line.is_empty() && line[0] != b'0' && line.iter().all(|c| c.is_ascii_digit()));
+    if ok {
+        Ok(())
+    } else {
+        Err(DecodeErr::Malformed("non-canonical length".into()))
+    }
+}
+
 /// Decode one frame from the front of buf: Ok(None) = incomplete
 pub fn decode(buf: &[u8]) -> Result<Option<(R, usize)>, DecodeErr> {
     decode_at(buf, 0, 0)
@@ -63,7 +73,13 @@ fn decode_at(buf: &[u8], pos: usize, depth: usize) -> Result<Option<(R, usize)>,
         b'+' => Ok(Some((R::Simple(line.to_vec()), after))),
         b'-' => Ok(Some((R::Err(line.to_vec()), after))),
         b':' => Ok(Some((R::Int(parse_i64(line)?), after))),
-        b'_' => Ok(Some((R::Null, after))),
+        b'_' => {
+            if line.is_empty() {
+                Ok(Some((R::Null, after)))
+            } else {
+                Err(DecodeErr::Malformed("bad null".into()))
+            }
+        }
         b'#' => match line {
             b"t" => Ok(Some((R::Bool(true), after))),
             b"f" => Ok(Some((R::Bool(false), after))),
@@ -80,6 +96,7 @@ fn decode_at(buf: &[u8], pos: usize, depth: usize) -> Result<Option<(R, usize)>,
             Ok(Some((R::Double(v), after)))
         }
         b'$' => {
+            canonical_len(line)?;
             let n = parse_i64(line)?;
             if n == -1 {
                 return Ok(Some((R::Nil, after)));
@@ -97,6 +114,7 @@ fn decode_at(buf: &[u8], pos: usize, depth: usize) -> Result<Option<(R, usize)>,
             Ok(Some((R::Bulk(buf[after..after + n].to_vec()), after + n + 2)))
         }
         b'*' | b'~' | b'%' => {
+            canonical_len(line)?;
             let n = parse_i64(line)?;
             if n == -1 && t == b'*' {
                 return Ok(Some((R::NilArr, after)));
